@@ -563,6 +563,8 @@ class Phase(Angle):
         string = np.asanyarray(string)
         if string.dtype.kind not in "SU":
             raise ValueError("require string input.")
+        if string.dtype.kind == "S":
+            string = np.char.decode(string, "ascii")
         count, frac = _parse_strings(string)
         if np.all(count.imag == 0) and np.all(frac.imag == 0):
             # Real input; a zero part must not be mistaken for an imaginary one.
